@@ -226,7 +226,8 @@ def strict(c, results, label, limit):
             vlib.write_ndjson(f, lines)
             text = cfg(ncomp, 8, 60, 60, False, ["ModelProperty"], view=True).replace("SPECIFICATION Spec", "SPECIFICATION SSpec") \
                 .replace("VIEW view\n", "") \
-                .replace("  Nobody = Nobody", "  Nobody = Nobody\n  CreateComp <- LogComp\n  StartComp <- LogComp\n  StopComp <- LogComp") \
+                .replace("  Nobody = Nobody", "  Nobody = Nobody\n  CreateComp <- LogComp\n  StartComp <- LogComp\n  StopComp <- LogComp\n"
+                                             "  MaxBlocked <- StrictMaxBlocked") \
                 + "CONSTRAINT HighWater\nPOSTCONDITION Accepted\n"
             r = c.tlc("Collector", "CollectorStrict", cfg_text=text, workers=1, files={"observed.ndjson": f},
                       timeout=1500, label="%s_%d" % (lab, attempt), count=False, heap="4g")
@@ -431,7 +432,8 @@ def run(c):
                 what += " -- " + sig
             for e in tr:
                 if e["ev"] == "timeout" and clause == "RunReturns":
-                    what += " || state %s after %ss; %s" % (e["st"], e.get("waited_s"), "; ".join(e.get("detail", [])))
+                    what += " || state %s, nothing moved for %ss (watchdog %ss); %s" % (
+                        e["st"], e.get("waited_s"), e.get("watchdog_s"), "; ".join(e.get("detail", [])))
             # the replay object is the script alone: the same script always maps to the same file
             if c.violation(what, replay_obj=dict(script=sc, clause=clause), signature=sig,
                            replay_path=c.replay if c.replay else None):
